@@ -610,7 +610,7 @@ func main() {
 	}
 
 	n := e.N(45, 500)
-	opts := rmkit.GenOpts{SchemaChange: 5}
+	opts := rmkit.GenOpts{SchemaChange: 5, Cellwise: 4}
 	if *profile == "c43" {
 		opts.SchemaChange = 2
 	}
